@@ -1,22 +1,24 @@
 SPECIFICATION Spec
 CONSTANTS
   NTypes = 3
-  MaxRuns = 2
-  Shapes <- ShapesLimiter
-  Limits = {1, 2, 3}
-  DefIds = {1}
+  MaxRuns = 3
+  Shapes <- ShapesPlain
+  Limits = {0}
+  DefIds = {1, 2}
   OmitVals = {FALSE}
-  Modes = {"fresh", "lctx", "gen"}
-  ResetLimiter = FALSE
+  Modes = {"fresh", "lctx", "gen", "proc"}
+  ResetLimiter = TRUE
   IdentityDepKey = TRUE
   VolatileUniq = TRUE
   FreshModule = TRUE
-  Words = {1}
+  Words = {2}
   FullStropKey = TRUE
   Docs = {0}
   PureFilters = TRUE
-  Confs = {0}
+  Confs = {1}
   PureDerivedNames = TRUE
 VIEW View
-INVARIANT EmitBad
+INVARIANT SibDigest
+INVARIANT LimitRespected
+INVARIANT OwnLineKept
 CHECK_DEADLOCK FALSE
